@@ -768,10 +768,12 @@ pub proof fn lemma_shift_up_shape(s1: Seq<DiffOp>, p: int, s: usize)
     let pre = up_pre(s1, p); let post = up_post(s1, p); let w1 = up_w1(s1, p); let w2 = up_w2(s1, p, s);
     let s2 = shift_up_result(s1, p, s);
     assert(s1 =~= cat3(pre, w1, post));
+    // the four shapes, each compared position by position: before the window, inside it, behind it
+    let t = cat3(pre, w2, post); let a = pre.len() as int;
     if up_grew(s1, p) {
-        if op_old_len(s1[p - 1]) == s { assert(s2 =~= cat3(pre, w2, post)); } else { assert(s2 =~= cat3(pre, w2, post)); }
+        if op_old_len(s1[p - 1]) == s { assert(s2.len() == t.len()); assert forall|i: int| 0 <= i < t.len() implies s2[i] == t[i] by { if i < a {} else if i < a + w2.len() {} else {} } assert(s2 =~= t); } else { assert(s2.len() == t.len()); assert forall|i: int| 0 <= i < t.len() implies s2[i] == t[i] by { if i < a {} else if i < a + w2.len() {} else {} } assert(s2 =~= t); }
     } else {
-        if op_old_len(s1[p - 1]) == s { assert(s2 =~= cat3(pre, w2, post)); } else { assert(s2 =~= cat3(pre, w2, post)); }
+        if op_old_len(s1[p - 1]) == s { assert(s2.len() == t.len()); assert forall|i: int| 0 <= i < t.len() implies s2[i] == t[i] by { if i < a {} else if i < a + w2.len() {} else {} } assert(s2 =~= t); } else { assert(s2.len() == t.len()); assert forall|i: int| 0 <= i < t.len() implies s2[i] == t[i] by { if i < a {} else if i < a + w2.len() {} else {} } assert(s2 =~= t); }
     }
 }
 
@@ -782,12 +784,36 @@ pub proof fn lemma_arm_shift_up<Old: Index<usize> + ?Sized, New: Index<usize> + 
         forall|k: int| 0 <= k < s ==> #[trigger] relk(rel_of(old, new), op_old_end(s1[p - 1]) - s, op_new_end(s1[p]) - s, k),
     ensures lax_step(old, new, s1, shift_up_result(s1, p, s)), step_ok(old, new, s1, shift_up_result(s1, p, s), true),
 {
+    // two small steps, so that the facts about the ops around p and the decomposition of the list never meet in one query
+    lemma_win_shift_up_at(old, new, s1, p, s);
+    lemma_arm_shift_up_glue(old, new, s1, p, s);
+}
+
+/// the window lemma for the window of s1 around p
+pub proof fn lemma_win_shift_up_at<Old: Index<usize> + ?Sized, New: Index<usize> + ?Sized>(old: &Old, new: &New, s1: Seq<DiffOp>, p: int, s: usize)
+  where New::Output: PartialEq<Old::Output>
+    requires 1 <= p < s1.len(), s1[p - 1] is Equal, s1[p] is Insert, 0 < s <= op_old_len(s1[p - 1]), s <= op_new_len(s1[p]), op_wf(s1[p - 1]), op_wf(s1[p]),
+        p + 1 < s1.len() && s1[p + 1] is Equal ==> op_old_len(s1[p + 1]) + s <= usize::MAX,
+        forall|k: int| 0 <= k < s ==> #[trigger] relk(rel_of(old, new), op_old_end(s1[p - 1]) - s, op_new_end(s1[p]) - s, k),
+    ensures win_ok(old, new, up_w1(s1, p), up_w2(s1, p, s), false), win_ok(old, new, up_w1(s1, p), up_w2(s1, p, s), true),
+        win_carried(up_w1(s1, p), up_w2(s1, p, s)),
+{
     let e = s1[p - 1]; let i = s1[p];
     let grew = up_grew(s1, p);
     let f = if grew { s1[p + 1] } else { e };
-    lemma_shift_up_shape(s1, p, s);
     lemma_win_shift_up(old, new, e, i, f, s, grew, false);
     lemma_win_shift_up(old, new, e, i, f, s, grew, true);
+}
+
+/// only the window changes (shape lemma), so what the window rewrite keeps, the list keeps (the pieces stay folded)
+pub proof fn lemma_arm_shift_up_glue<Old: Index<usize> + ?Sized, New: Index<usize> + ?Sized>(old: &Old, new: &New, s1: Seq<DiffOp>, p: int, s: usize)
+  where New::Output: PartialEq<Old::Output>
+    requires 1 <= p < s1.len(),
+        win_ok(old, new, up_w1(s1, p), up_w2(s1, p, s), false), win_ok(old, new, up_w1(s1, p), up_w2(s1, p, s), true), win_carried(up_w1(s1, p), up_w2(s1, p, s)),
+    ensures lax_step(old, new, s1, shift_up_result(s1, p, s)), step_ok(old, new, s1, shift_up_result(s1, p, s), true),
+{
+    hide(up_w1); hide(up_w2); hide(up_pre); hide(up_post); hide(shift_up_result);
+    lemma_shift_up_shape(s1, p, s);
     lemma_arm_window(old, new, s1, shift_up_result(s1, p, s), up_pre(s1, p), up_w1(s1, p), up_w2(s1, p, s), up_post(s1, p));
 }
 
@@ -806,10 +832,12 @@ pub proof fn lemma_shift_down_shape(s1: Seq<DiffOp>, p: int, s: usize)
     let pre = down_pre(s1, p); let post = down_post(s1, p); let w1 = down_w1(s1, p); let w2 = down_w2(s1, p, s);
     let s2 = shift_down_result(s1, p, s);
     assert(s1 =~= cat3(pre, w1, post));
+    // the four shapes, each compared position by position: before the window, inside it, behind it
+    let t = cat3(pre, w2, post); let a = pre.len() as int;
     if down_grew(s1, p) {
-        if op_old_len(s1[p + 1]) == s { assert(s2 =~= cat3(pre, w2, post)); } else { assert(s2 =~= cat3(pre, w2, post)); }
+        if op_old_len(s1[p + 1]) == s { assert(s2.len() == t.len()); assert forall|i: int| 0 <= i < t.len() implies s2[i] == t[i] by { if i < a {} else if i < a + w2.len() {} else {} } assert(s2 =~= t); } else { assert(s2.len() == t.len()); assert forall|i: int| 0 <= i < t.len() implies s2[i] == t[i] by { if i < a {} else if i < a + w2.len() {} else {} } assert(s2 =~= t); }
     } else {
-        if op_old_len(s1[p + 1]) == s { assert(s2 =~= cat3(pre, w2, post)); } else { assert(s2 =~= cat3(pre, w2, post)); }
+        if op_old_len(s1[p + 1]) == s { assert(s2.len() == t.len()); assert forall|i: int| 0 <= i < t.len() implies s2[i] == t[i] by { if i < a {} else if i < a + w2.len() {} else {} } assert(s2 =~= t); } else { assert(s2.len() == t.len()); assert forall|i: int| 0 <= i < t.len() implies s2[i] == t[i] by { if i < a {} else if i < a + w2.len() {} else {} } assert(s2 =~= t); }
     }
 }
 
@@ -820,12 +848,36 @@ pub proof fn lemma_arm_shift_down<Old: Index<usize> + ?Sized, New: Index<usize> 
         forall|k: int| 0 <= k < s ==> #[trigger] relk(rel_of(old, new), op_old_index(s1[p + 1]) as int, op_new_index(s1[p]) as int, k),
     ensures lax_step(old, new, s1, shift_down_result(s1, p, s)), step_ok(old, new, s1, shift_down_result(s1, p, s), true),
 {
+    // two small steps, so that the facts about the ops around p and the decomposition of the list never meet in one query
+    lemma_win_shift_down_at(old, new, s1, p, s);
+    lemma_arm_shift_down_glue(old, new, s1, p, s);
+}
+
+/// the window lemma for the window of s1 around p
+pub proof fn lemma_win_shift_down_at<Old: Index<usize> + ?Sized, New: Index<usize> + ?Sized>(old: &Old, new: &New, s1: Seq<DiffOp>, p: int, s: usize)
+  where New::Output: PartialEq<Old::Output>
+    requires 0 <= p, p + 1 < s1.len(), s1[p + 1] is Equal, s1[p] is Insert, 0 < s <= op_old_len(s1[p + 1]), s <= op_new_len(s1[p]), op_wf(s1[p + 1]), op_wf(s1[p]),
+        p >= 1 && s1[p - 1] is Equal ==> op_old_len(s1[p - 1]) + s <= usize::MAX,
+        forall|k: int| 0 <= k < s ==> #[trigger] relk(rel_of(old, new), op_old_index(s1[p + 1]) as int, op_new_index(s1[p]) as int, k),
+    ensures win_ok(old, new, down_w1(s1, p), down_w2(s1, p, s), false), win_ok(old, new, down_w1(s1, p), down_w2(s1, p, s), true),
+        win_carried(down_w1(s1, p), down_w2(s1, p, s)),
+{
     let f = s1[p + 1]; let i = s1[p];
     let grew = down_grew(s1, p);
     let e = if grew { s1[p - 1] } else { f };
-    lemma_shift_down_shape(s1, p, s);
     lemma_win_shift_down(old, new, e, i, f, s, grew, false);
     lemma_win_shift_down(old, new, e, i, f, s, grew, true);
+}
+
+/// only the window changes (shape lemma), so what the window rewrite keeps, the list keeps (the pieces stay folded)
+pub proof fn lemma_arm_shift_down_glue<Old: Index<usize> + ?Sized, New: Index<usize> + ?Sized>(old: &Old, new: &New, s1: Seq<DiffOp>, p: int, s: usize)
+  where New::Output: PartialEq<Old::Output>
+    requires 0 <= p, p + 1 < s1.len(),
+        win_ok(old, new, down_w1(s1, p), down_w2(s1, p, s), false), win_ok(old, new, down_w1(s1, p), down_w2(s1, p, s), true), win_carried(down_w1(s1, p), down_w2(s1, p, s)),
+    ensures lax_step(old, new, s1, shift_down_result(s1, p, s)), step_ok(old, new, s1, shift_down_result(s1, p, s), true),
+{
+    hide(down_w1); hide(down_w2); hide(down_pre); hide(down_post); hide(shift_down_result);
+    lemma_shift_down_shape(s1, p, s);
     lemma_arm_window(old, new, s1, shift_down_result(s1, p, s), down_pre(s1, p), down_w1(s1, p), down_w2(s1, p, s), down_post(s1, p));
 }
 
@@ -834,6 +886,18 @@ pub proof fn lemma_arm_swap<Old: Index<usize> + ?Sized, New: Index<usize> + ?Siz
   where New::Output: PartialEq<Old::Output>
     requires swapped(s1, s2, p), swap_plain(s1, s2, p) || swap_fixed(s2, p), ops_full(old, new, s1, bw, false), carried_ok(s1),
     ensures lax_step(old, new, s1, s2), swap_fixed(s2, p) ==> step_ok(old, new, s1, s2, true),
+{
+    // two small steps (the quantified hypotheses above are only passed on): validity, then the carried indices
+    lemma_arm_swap_steps(old, new, s1, s2, p);
+    assert(ops_full(old, new, s2, bw, false));
+    lemma_arm_swap_carried(old, new, s1, s2, p, bw);
+}
+
+/// ... validity for every box, and the number of equal items
+pub proof fn lemma_arm_swap_steps<Old: Index<usize> + ?Sized, New: Index<usize> + ?Sized>(old: &Old, new: &New, s1: Seq<DiffOp>, s2: Seq<DiffOp>, p: int)
+  where New::Output: PartialEq<Old::Output>
+    requires swapped(s1, s2, p), swap_plain(s1, s2, p) || swap_fixed(s2, p),
+    ensures step_ok(old, new, s1, s2, false), swap_fixed(s2, p) ==> step_ok(old, new, s1, s2, true), etot(s2) == etot(s1),
 {
     let a = s1[p - 1]; let c = s1[p]; let c2 = s2[p - 1]; let a2 = s2[p];
     let pre = s1.subrange(0, p - 1); let post = s1.subrange(p + 1, s1.len() as int);
@@ -847,7 +911,22 @@ pub proof fn lemma_arm_swap<Old: Index<usize> + ?Sized, New: Index<usize> + ?Siz
         assert(swap_fixed(w2, 1));
         lemma_step_window(old, new, pre, w1, w2, post, true);
     }
-    // carried indices
+    lemma_cat3_tot(pre, w1, post);
+    lemma_cat3_tot(pre, w2, post);
+}
+
+/// ... room around the carried indices
+pub proof fn lemma_arm_swap_carried<Old: Index<usize> + ?Sized, New: Index<usize> + ?Sized>(old: &Old, new: &New, s1: Seq<DiffOp>, s2: Seq<DiffOp>, p: int, bw: OBox)
+  where New::Output: PartialEq<Old::Output>
+    requires swapped(s1, s2, p), swap_plain(s1, s2, p) || swap_fixed(s2, p), ops_full(old, new, s2, bw, false),
+    ensures carried_ok(s1) ==> carried_ok(s2),
+{
+    let a = s1[p - 1]; let c = s1[p]; let c2 = s2[p - 1]; let a2 = s2[p];
+    let pre = s1.subrange(0, p - 1); let post = s1.subrange(p + 1, s1.len() as int);
+    let w1 = seq![a, c]; let w2 = seq![c2, a2];
+    assert(s1 =~= cat3(pre, w1, post));
+    assert(s2 =~= cat3(pre, w2, post));
+    assert(w2[0] == c2 && w2[1] == a2);
     let e0 = etot(pre); let et = etot(s1);
     lemma_cat3_tot(pre, w1, post);
     lemma_carried2(a, c, e0, et); lemma_carried2(c2, a2, e0, et);
@@ -855,7 +934,6 @@ pub proof fn lemma_arm_swap<Old: Index<usize> + ?Sized, New: Index<usize> + ?Siz
         if swap_plain(s1, s2, p) {
             assert(carried_in(w2, e0, et));
         } else {
-            assert(ops_full(old, new, s2, bw, false));
             lemma_op_facts(old, new, s2, p - 1, bw, false);
             lemma_op_facts(old, new, s2, p, bw, false);
             lemma_cat3_at(pre, w2, post, p - 1);
@@ -864,6 +942,137 @@ pub proof fn lemma_arm_swap<Old: Index<usize> + ?Sized, New: Index<usize> + ?Siz
         }
     }
     lemma_carried_window(pre, w1, w2, post);
+}
+
+// ---------------------------------------------------------------------------------------------
+// C09 (latest insertion position): what the rewrites leave untouched before the pointer, and what that means for
+// the Inserts that are already stuck
+// ---------------------------------------------------------------------------------------------
+pub proof fn lemma_same_before_refl(a: Seq<DiffOp>, n: int)
+    requires 0 <= n <= a.len(),
+    ensures same_before(a, a, n),
+{}
+
+/// a rewrite that leaves everything before position n alone keeps the frame
+pub proof fn lemma_same_before_keep(ops0: Seq<DiffOp>, s1: Seq<DiffOp>, s2: Seq<DiffOp>, n: int)
+    requires same_before(ops0, s1, n), n <= s2.len(), forall|i: int| 0 <= i < n ==> s1[i] == #[trigger] s2[i],
+    ensures same_before(ops0, s2, n),
+{
+    if n >= 1 { assert(s1[n - 1] == s2[n - 1]); }
+}
+
+/// a rewrite that leaves everything before position p - 1 alone moves the frame up by one
+pub proof fn lemma_same_before_dec(ops0: Seq<DiffOp>, s1: Seq<DiffOp>, s2: Seq<DiffOp>, p: int)
+    requires same_before(ops0, s1, p), p >= 1, p - 1 <= s2.len(), forall|i: int| 0 <= i < p - 1 ==> s1[i] == #[trigger] s2[i],
+    ensures same_before(ops0, s2, p - 1),
+{
+    if p >= 2 { assert(s1[p - 2] == s2[p - 2]); assert(ops0[p - 2] == s1[p - 2]); }
+}
+
+/// `shift_up_result`: the Equal at p - 1 keeps its start (or disappears), nothing before it changes
+pub proof fn lemma_frame_shift_up(ops0: Seq<DiffOp>, s1: Seq<DiffOp>, p: int, s: usize)
+    requires same_before(ops0, s1, p), 1 <= p < s1.len(), s1[p - 1] is Equal, 0 < s <= op_old_len(s1[p - 1]),
+    ensures same_before(ops0, shift_up_result(s1, p, s), if op_old_len(s1[p - 1]) == s { p - 1 } else { p }),
+        p - 1 < shift_up_result(s1, p, s).len(),
+{
+    let s2 = shift_up_result(s1, p, s);
+    assert forall|i: int| 0 <= i < p - 1 implies s1[i] == #[trigger] s2[i] by {}
+    if op_old_len(s1[p - 1]) == s {
+        lemma_same_before_dec(ops0, s1, s2, p);
+    } else {
+        assert(s2[p - 1] == adjusted(s1[p - 1], 0, false, s, true));
+        assert(head_same(s1[p - 1], s2[p - 1]));
+    }
+}
+
+/// `shift_down_result`: nothing before p changes except that an Equal at p - 1 grows at its end; a new Equal may appear at p
+pub proof fn lemma_frame_shift_down(ops0: Seq<DiffOp>, s1: Seq<DiffOp>, p0: int, p: int, s: usize, ins: bool)
+    requires same_before(ops0, s1, p0), p0 <= p, p + 1 < s1.len(), s1[p] is Insert, s1[p + 1] is Equal, 0 < s <= op_old_len(s1[p + 1]),
+        ins ==> no_insert_in(s1, p0, p),
+    ensures ({ let s2 = shift_down_result(s1, p, s); let p2 = if down_grew(s1, p) { p } else { p + 1 };
+        same_before(ops0, s2, p0) && (ins ==> no_insert_in(s2, p0, p2)) && p2 < s2.len() }),
+{
+    let s2 = shift_down_result(s1, p, s); let p2 = if down_grew(s1, p) { p } else { p + 1 };
+    if down_grew(s1, p) {
+        assert forall|i: int| 0 <= i < p - 1 implies s1[i] == #[trigger] s2[i] by {}
+        assert(s2[p - 1] == adjusted(s1[p - 1], 0, false, s, false));
+        assert(head_same(s1[p - 1], s2[p - 1]));
+        if ins {
+            assert forall|i: int| p0 <= i < p2 && 0 <= i < s2.len() implies !((#[trigger] s2[i]) is Insert) by {
+                if i < p - 1 { assert(s1[i] == s2[i]); }
+            }
+        }
+    } else {
+        assert forall|i: int| 0 <= i < p implies s1[i] == #[trigger] s2[i] by {}
+        assert(s2[p] == down_new_equal(s1[p], s1[p + 1], s));
+        if p0 >= 1 { assert(s1[p0 - 1] == s2[p0 - 1]); }
+        if ins {
+            assert forall|i: int| p0 <= i < p2 && 0 <= i < s2.len() implies !((#[trigger] s2[i]) is Insert) by {
+                if i < p { assert(s1[i] == s2[i]); }
+            }
+        }
+    }
+}
+
+/// the Insert at p and the Delete behind it change places (`shift_diff_ops_down`): a Delete is left behind at p
+pub proof fn lemma_frame_swap_down(ops0: Seq<DiffOp>, s1: Seq<DiffOp>, s2: Seq<DiffOp>, p0: int, p: int, ins: bool)
+    requires same_before(ops0, s1, p0), 0 <= p0 <= p, swapped(s1, s2, p + 1), ins ==> s1[p] is Insert && no_insert_in(s1, p0, p),
+    ensures same_before(ops0, s2, p0), ins ==> no_insert_in(s2, p0, p + 1),
+{
+    assert forall|i: int| 0 <= i < p0 implies s1[i] == #[trigger] s2[i] by {}
+    lemma_same_before_keep(ops0, s1, s2, p0);
+    if ins {
+        assert(s2[p] is Delete);
+        assert forall|i: int| p0 <= i < p + 1 && 0 <= i < s2.len() implies !((#[trigger] s2[i]) is Insert) by {
+            if i < p { assert(s1[i] == s2[i]); }
+        }
+    }
+}
+
+/// `merge_result(s1, p + 1)` (`shift_diff_ops_down`): nothing before p changes
+pub proof fn lemma_frame_merge_down(ops0: Seq<DiffOp>, s1: Seq<DiffOp>, p0: int, p: int, ins: bool)
+    requires same_before(ops0, s1, p0), 0 <= p0 <= p, p + 1 < s1.len(), ins ==> no_insert_in(s1, p0, p),
+    ensures same_before(ops0, merge_result(s1, p + 1), p0), ins ==> no_insert_in(merge_result(s1, p + 1), p0, p),
+{
+    let s2 = merge_result(s1, p + 1);
+    assert forall|i: int| 0 <= i < p implies s1[i] == #[trigger] s2[i] by {}
+    lemma_same_before_keep(ops0, s1, s2, p0);
+    if ins {
+        assert forall|i: int| p0 <= i < p && 0 <= i < s2.len() implies !((#[trigger] s2[i]) is Insert) by { assert(s1[i] == s2[i]); }
+    }
+}
+
+/// the Inserts that were stuck before `shift_diff_ops_up` moved the op at `pointer` up to `res` are still stuck
+pub proof fn lemma_stuck_after_up(rel: Rel, a: Seq<DiffOp>, b: Seq<DiffOp>, pointer: int, res: int)
+    requires ins_stuck_upto(rel, a, pointer), 0 <= res <= pointer < a.len(), same_before(a, b, res), res > 0 ==> b[res - 1] is Equal,
+    ensures ins_stuck_upto(rel, b, res),
+{
+    assert forall|i: int| 0 <= i < res && i < b.len() implies #[trigger] ins_stuck_at(rel, b, i) by {
+        if i < res - 1 {
+            assert(a[i] == b[i]);
+            assert(ins_stuck_at(rel, a, i));
+            if i + 1 < res - 1 { assert(a[i + 1] == b[i + 1]); } else { assert(head_same(a[i + 1], b[i + 1])); }
+        }
+    }
+}
+
+/// ... and after `shift_diff_ops_down` moved the Insert from `p` (behind an Equal, or first) down to `res`, where it is stuck
+pub proof fn lemma_stuck_after_down(rel: Rel, a: Seq<DiffOp>, b: Seq<DiffOp>, p: int, res: int)
+    requires ins_stuck_upto(rel, a, p), 0 <= p < a.len(), p > 0 ==> a[p - 1] is Equal, same_before(a, b, p), p <= res < b.len(),
+        no_insert_in(b, p, res), ins_stuck_at(rel, b, res),
+    ensures ins_stuck_upto(rel, b, res + 1),
+{
+    assert forall|i: int| 0 <= i < res + 1 && i < b.len() implies #[trigger] ins_stuck_at(rel, b, i) by {
+        if i < p - 1 {
+            assert(a[i] == b[i]);
+            assert(ins_stuck_at(rel, a, i));
+            if i + 1 < p - 1 { assert(a[i + 1] == b[i + 1]); } else { assert(head_same(a[i + 1], b[i + 1])); }
+        } else if i == p - 1 {
+            assert(head_same(a[i], b[i]));
+        } else if i < res {
+            assert(!(b[i] is Insert));
+        }
+    }
 }
 
 } // verus!
